@@ -17,16 +17,19 @@ def model_check(tier):
     """every interleaving of the model against the contract (known error classes tolerated so that the
     search continues past them)"""
     runs = []
-    for g, p, c in MC[tier]:
-        env = {"GRAPH": g, "PROG": p, "KNOWN": "known", "CACHE": c}
-        gen = C.TlcGen("MC_Loader.tla", "MC_Loader.cfg", "loader_mc_%s_%s_%s" % (g, p, c), workers=8, env=env, timeout=900)
+    for g, p, c in MC[tier] + [("T:" + g, p, c) for g, p, c in MC[tier] if p in PROGS][:(4 if tier == "quick" else 999)]:
+        variant = "terminology"
+        if g.startswith("T:"):
+            g, variant = g[2:], "template"
+        env = {"GRAPH": g, "PROG": p, "KNOWN": "known", "CACHE": c, "VARIANT": variant}
+        gen = C.TlcGen("MC_Loader.tla", "MC_Loader.cfg", "loader_mc_%s_%s_%s_%s" % (variant, g, p, c), workers=8, env=env, timeout=900)
         try:
             gen.all_lines()
-            runs.append({"cfg": "MC_Loader.cfg GRAPH=%s PROG=%s CACHE=%s" % (g, p, c), "cmd": gen.describe(), "states": gen.stats["distinct"],
+            runs.append({"cfg": "MC_Loader.cfg VARIANT=%s GRAPH=%s PROG=%s CACHE=%s" % (variant, g, p, c), "cmd": gen.describe(), "states": gen.stats["distinct"],
                          "transitions": gen.stats["generated"], "wall_s": round(gen.wall, 1), "result": "all invariants hold"})
         except C.MachineryError as e:
             viol = [l for l in gen.log if "is violated" in l]
-            runs.append({"cfg": "MC_Loader.cfg GRAPH=%s PROG=%s CACHE=%s" % (g, p, c), "cmd": gen.describe(), "states": gen.stats.get("distinct", 1),
+            runs.append({"cfg": "MC_Loader.cfg VARIANT=%s GRAPH=%s PROG=%s CACHE=%s" % (variant, g, p, c), "cmd": gen.describe(), "states": gen.stats.get("distinct", 1),
                          "transitions": gen.stats.get("generated", 1), "wall_s": 0, "result": "; ".join(viol) or "error"})
             if not viol:
                 raise
@@ -52,6 +55,8 @@ def observe(tier):
               for i, g in enumerate(GRAPHS) for j, (p, c) in enumerate(
                   [(p, "empty") for p in PROGS] + [(p, c) for p in RPROGS for c in ("empty", "stale")] +
                   ([(p, c) for p in PROGS for c in ("warm", "stale")] + [(p, "warm") for p in RPROGS] if tier == "thorough" else [("dA_dB_lA_lA", "warm"), ("dD_dB_lD_lD", "stale")]))]
+    cases += [[{"beh": True, "variant": "template", "graph": g, "prog": p, "cache": c, "n": nb, "seed": 7 * i + j}]
+              for i, g in enumerate(GRAPHS) for j, (p, c) in enumerate([(p, "empty") for p in PROGS] + ([(p, c) for p in PROGS for c in ("warm", "stale")] if tier == "thorough" else [("dA_lA", "stale")]))]
     # one case is the exploration of all schedules of one (graph, program, cache): it may take minutes on a loaded machine
     n, files = par.replay_stream(cases, "harness.loader", os.path.join(d, "S"), shard=4000, case_timeout=1800)
     return {"judge": [("JudgeLoader.tla", "JudgeLoader.cfg", files)], "tlc": tlc, "records": {"S": n},
